@@ -204,11 +204,14 @@ CLAIMED = {
               "distribution rotates by k bins with them on every uniform grid, and the approximate variant as a whole rotates "
               "with its input (all N, theta0, k); MEM: Phi1 -> Phi1 e^{i phi}, Phi2 -> Phi2 e^{2 i phi}, numerator unchanged, so the "
               "value at theta of rotated moments is the value at theta - phi, and MEM with its discrete normalisation rotates "
-              "by k bins on every uniform grid (bridge lemmas tie the list model to these functions). Correspondence as C05; fidelity of Newton / scipy / MEM on "
+              "by k bins on every uniform grid (bridge lemmas tie the list model to these functions); the constraint function is "
+              "equivariant (F(R lambda; R M) = R F(lambda; M)), the line search makes the same decisions on rotated data, and "
+              "the whole damped Newton iteration (any tolerance / cap / depth, converged or not) returns the rotated "
+              "distribution for rotated moments, given an equivariant Newton step. Correspondence as C05; fidelity of Newton / scipy / MEM on "
               "von-Mises mixtures with spread >= 1.5 bins (N in 24,36,72,144), Newton-vs-scipy agreement, rotation by every k "
               "and mirror equivariance of all four variants, finite-difference Jacobian, on the implementation."),
         design="6/C06", technique="Lean 4 proof at ℝ (loop invariant, closed-form Jacobian, HasDerivAt) + Float-model correspondence + implementation oracles",
-        note=PROOF_NOTE + " Second tie: tools/py2lean_arith.py re-translates mem2.py: initial_value from the current source on every run and OsuProps/C06Gen.lean proves it equal to the model's first guess. That the solvers do converge on resolved inputs, MEM's discretisation error (exact aliasing identity in the harness) and rotation equivariance of whole Newton / scipy runs and the mirror image are decided by the oracles only (the theorems cover MEM, the approximate variant, the first guess and the distribution for any multipliers)."),
+        note=PROOF_NOTE + " Second tie: tools/py2lean_arith.py re-translates mem2.py: initial_value from the current source on every run and OsuProps/C06Gen.lean proves it equal to the model's first guess. That the solvers do converge on resolved inputs, MEM's discretisation error (exact aliasing identity in the harness) and that the Newton step (Jacobian + linear solve) is equivariant is a hypothesis of newton_rotates (true for an exact solve because J(R lambda) = R J R^T; not proved); scipy runs and the mirror image are decided by the oracles only."),
     "C08": dict(
         text=("Lean 4 theorems at ℝ over the model of st4_wind_input / st4_wave_breaking / st6_wave_breaking / operations "
               "(one spatial point, wavenumbers and group velocities as inputs): the ST4 input of every bin is >= 0 for a "
